@@ -615,6 +615,18 @@ class E6Anim(Engine):
         else:
             decl = f"lcd = LCD(rs=12, en=11, d4=5, d5=4, d6=3, d7=2, cols={cols}, rows={rows})"
         lines = [decl]
+        if r.random() < 0.3:
+            # a second, static display of another width on the same kind of interface: nothing it does may leak into
+            # the animated one (shared helper templates, shared statics)
+            cols2 = r.choice([cols + 4, cols + 20, max(1, cols - 3), 40])
+            if i2c:
+                lines.append(f"side = LCD(i2c_addr=0x3F, cols={cols2}, rows=2)")
+            else:
+                lines.append(f"side = LCD(rs=8, en=9, d4=10, d5=13, d6=6, d7=7, cols={cols2}, rows=2)")
+            lines.append(r.choice(['side.line(0, "wide display")', "side.clear()", 'side.write(0, 1, "x")', 'side.line(1, "r", align="right")']))
+            n_static = 2
+        else:
+            n_static = 0
         defs: List[str] = []
         in_loop: List[str] = []
         for i, a in enumerate(anims):
@@ -631,7 +643,7 @@ class E6Anim(Engine):
                 in_loop += [f"    if n == {a['start_pass'] + 1}:", "        " + call]
             else:
                 lines.append(call)
-        lines = [lines[0]] + defs + lines[1:]
+        lines = lines[: 1 + n_static] + defs + lines[1 + n_static:]
         if in_loop:
             lines.append("n = 0")
         lines.append("while True:")
